@@ -2,7 +2,7 @@ SPECIFICATION Spec
 CONSTANTS
   IPS = {1, 2, 3}
   NODES = {1, 2, 3}
-  KINDS = {"msg", "way", "junk"}
+  KINDS = {"msg", "hs", "way", "junk"}
   CFGS <- CfSim
   H = 200
   MAXARR = 200
